@@ -24,6 +24,13 @@ t("var-then-store", "var q1, q2 = ", ", bump()\n[q1, q2]"); t("index-then-store"
 t("delete-global-flag", "xg = 1\nfunc() {\n delete(\"xg\", ", ")\n}()\nxg ?? \"gone\""); t("eq-ptr", "vp == ", ""); t("eq-ptr-l", "", " == vp"); t("in-ptr-list", "", " in [vp, 1]"); t("in-list-ptr", "vp in [", "]")
 t("switch-ptr-case", "func() {\n switch vp {\n case ", ":\n  return \"hit\"\n }\n return \"miss\"\n}()"); t("switch-ptr-subject", "func() {\n switch ", " {\n case vp:\n  return \"hit\"\n }\n return \"miss\"\n}()")
 t("list-then-store", "[", ", bump()]"); t("args-then-store", "f2(", ", bump())"); t("map-then-store", "{\"a\": ", ", \"b\": bump()}")
+t("args-go-then-store", "g2(", ", bump())"); t("args-go-variadic-then-store", "gl(", ", bump())"); t("args-go-variadic-mid-then-store", "gl(0, ", ", bump())"); t("args5-then-store", "f5(", ", bump(), 3, 4, 5)")
+t("args-variadic-then-store", "fl(", ", bump())"); t("args-variadic-rest-then-store", "fl(0, ", ", bump())"); t("args-spread-then-store", "f2(", ", [bump()]...)"); t("args-anon-then-store", "(func(a, b) { return [a, b] })(", ", bump())")
+t("mapkey-then-store", "{", ": bump()}"); t("typed-mapkey-then-store", "map[interface]interface{", ": bump()}"); t("switch-then-store", "func() {\n switch ", " {\n case bump():\n  return \"bumped\"\n case 3:\n  return \"three\"\n case \"ab\":\n  return \"str\"\n }\n return \"other\"\n}()")
+t("defer-args-then-store", "r = []\nfunc() {\n defer (func(a, b) { r += [[a, b]] })(", ", bump())\n return 1\n}()\nr"); t("throw-then-store", "func() {\n try {\n  throw [", ", bump()][0]\n } catch e {\n  return \"caught\"\n }\n}()")
+t("call-arg-go-stringer", "gs(", ")"); t("call-arg-go-error", "ge(", ")"); t("call-arg-go-stringer-variadic", "gsv(1, ", ")")
+t("make-type", "make(type TT, ", ")\nmake(TT)"); t("make-type-kind", "make(type TT, ", ")\nx = make(TT)\ng1(x)"); t("assign-then-store", "q = ", "\nbump()\nq"); t("assign-module-then-store", "mo.x = ", "\nbump()\nmo.x")
+t("unpack-then-store", "mo.x, q2 = [", ", 5]\nbump()\n[mo.x, q2]")
 t("plus-str-l", "", ' + "s"'); t("plus-str-r", '"s" + ', "")
 t("plus-list-l", "", " + [9]"); t("plus-list-r", "[9] + ", "")
 t("str-mul", '"ab" * ', ""); t("mul-str", "", " * 2")
@@ -57,7 +64,7 @@ t("list-elem", "[", ", 2]"); t("map-value", '{"a": ', "}"); t("map-key", "{", ":
 # a nil slice / map grows by rewriting the variable that holds it, likewise
 EXCLUDE = {("assign-index-base", "vs"), ("assign-index-base", "vns"), ("assign-index-base", "vnm"), ("assign-member", "vnm")}
 
-VARS = ["vi", "vz", "vf", "vs", "vb", "vn", "vl", "vm", "vp", "vc", "vfn", "vg", "vst", "vsp", "vtl", "vmo", "vns", "vnm", "vnp"]
+VARS = ["vi", "vz", "vf", "vs", "vb", "vn", "vl", "vm", "vp", "vc", "vfn", "vg", "vst", "vsp", "vtl", "vmo", "vns", "vnm", "vnp", "vdur", "verr"]
 
 
 def run(ctx):
@@ -109,7 +116,7 @@ def run(ctx):
             known = o["v"] == "vst" and o["chain"] and o["chain"][0] == "ntelem" and ("-then-" in o["t"] and o["t"].endswith("store"))
             if known:
                 k2 = ("known",) + k2
-            if k2 in reported or len(reported) >= 60:
+            if k2 in reported or sum(1 for q in reported if q[0] != "known") >= 60:      # (the cap counts new violations only: known ones must not use it up)
                 continue
             reported.add(k2)
             vlib.violation(ctx, "template %s with %s through %s: outcome %s, but %s with the bare variable\n%s" % (o["t"], o["v"], "/".join(o["chain"]), o["got"][:120], o["base"][:120], o["src"]),
